@@ -319,8 +319,6 @@ def parseMods6 (s : String) : Option (List Mod6) :=
 
 def parseMsg6 (s : String) : Option Msg6 := do ofSxMsg (← Sx.parse s)
 
-def acceptAny : Msg6 → Bool := fun _ => true
-
 def stepLease6 (kind : String) (args : List String) : Option String := do
   let cfg ← parseCfg args
   let hw ← unhex (← field args "hw")
@@ -339,7 +337,7 @@ def stepLease6 (kind : String) (args : List String) : Option String := do
     let adv ← parseMsg6 (← fieldRaw args "adv")
     match newRequestFromAdvertise xidA adv mods with
     | .ok req =>
-      let (_, tx, s, base) ← call6w c st req acceptAny
+      let (_, tx, s, base) ← call6w c st req (isMessageType6 mtReply [])
       pure ("ok" ++ tx ++ " res " ++ showResult6 base (request6 xidA adv mods s).res)
     | _ => pure ("ok res " ++ showResult6 [] (request6 xidA adv mods []).res)
   | "rapid" =>
@@ -351,7 +349,7 @@ def stepLease6 (kind : String) (args : List String) : Option String := do
         if m.typ == mtAdvertise then
           match newRequestFromAdvertise xidB m mods with
           | .ok req =>
-            let (_, tx2, s2, base2) ← call6w c st1 req acceptAny
+            let (_, tx2, s2, base2) ← call6w c st1 req (isMessageType6 mtReply [])
             pure ("ok" ++ tx1 ++ tx2 ++ " res " ++ showResult6 base2 (rapidSolicit xidA xidB 0 hw mods s1 s2).res)
           | _ => pure ("ok" ++ tx1 ++ " res " ++ showResult6 base1 (rapidSolicit xidA xidB 0 hw mods s1 []).res)
         else pure ("ok" ++ tx1 ++ " res " ++ showResult6 base1 (rapidSolicit xidA xidB 0 hw mods s1 []).res)
